@@ -5,7 +5,7 @@ change that keeps C06 may break C05's statement): each one is judged by hand and
 recorded in seeded/benign/CROSS.md."""
 import json, glob, subprocess, sys, os
 GROUPS = {
-  "eyeball-im/": ["C05", "C06", "C07", "C08", "C14", "C17", "C20", "C13"],
+  "eyeball-im/": ["C05", "C06", "C07", "C08", "C14", "C17", "C18", "C20", "C13"],
   "eyeball-im-util/": ["C09", "C10", "C11", "C12", "C13", "C14", "C15", "C20"],
   "eyeball/": ["C01", "C02", "C03", "C04", "C16", "C19", "C20"],
 }
